@@ -7,7 +7,7 @@ import UmGen.CmdTables
 (`src/proxy/command.rs`: `CmdType`, `DataCmdType`, `CommandInfo::get_key`;
 `src/proxy/executor.rs`: `handle_cmd_ctx`, `handle_cluster` (KEYSLOT), `handle_data_cmd`, `handle_mget`,
 `handle_mset`, `handle_msetnx`, `handle_multi_int_cmd`, `handle_blocking_commands`, `handle_eval_cmd`,
-`handle_multi_key_eval_cmd`, `handle_single_key_data_cmd`)
+`handle_multi_key_eval_cmd`, `handle_single_key_data_cmd`, `handle_umforward`)
 
 A command is its argument vector; an argument that is not a bulk string (nil bulk, integer, …) is
 `none` — `get_command_element` answers `None` for it, which the guards *skip* (`filter_map`) while the
@@ -410,10 +410,37 @@ def handleCluster (c : Cmd) : Resp :=
       | none => .error (bs "Missing key")
     else .error (bs "Unsupported sub command")
 
+/-- `str::parse::<usize>` (the redirection counter of `UMFORWARD`): an optional `+`, then at least one
+ASCII digit, value ≤ `usize::MAX`; leading zeros are accepted, `-`, spaces and the empty string are not.
+(`handle_umforward` applies `to_uppercase()` first: no character upper-cases to a digit or to `+`, and
+digits / `+` are their own upper case, so the parse result is that of the original string.) -/
+def parseUsize (b : Bytes) : Option Nat :=
+  match b with
+  | 43 :: rest => btou u64Max rest
+  | _ => btou u64Max b
+
+/-- `handle_umforward`: a command that arrives wrapped as `UMFORWARD <times> <cmd…>` (sent by a peer
+proxy under active redirection). `get_sub_command(1)` reads the counter, `extract_inner_cmd(2)` strips
+the two leading elements — rebuilding the cached `CommandInfo`, so type, key and **slot are those of the
+inner command** — `set_redirection_times(times)`, then `handle_data_cmd` whatever the inner name is
+(a keyless / control command name inside UMFORWARD is routed as a data command by its element 1). -/
+def handleUmforward (cfg : RouteCfg) (cm : ClusterMap) (backend : Addr → Cmd → Resp) (c : Cmd) : Handled :=
+  match elem c 1 with
+  | none => { reply := .error (bs "Missing sub command"), dispatched := [] }
+  | some ts =>
+    if !validUtf8 ts then { reply := .error (bs "Invalid sub command"), dispatched := [] }
+    else
+      match parseUsize ts with
+      | none => { reply := .error (bs "invalid redirection times"), dispatched := [] }
+      | some t =>
+        if (c.drop 2).isEmpty then { reply := .error (bs "missing forwarded command"), dispatched := [] }
+        else handleData cfg cm backend (some t) (c.drop 2)
+
 /-- `ForwardHandler::handle_cmd_ctx` for a client command (no password configured) -/
 def handle (cfg : RouteCfg) (cm : ClusterMap) (backend : Addr → Cmd → Resp) (c : Cmd) : Handled :=
   let t := cmdTypeOf c
   if t == "Others" then handleData cfg cm backend none c
+  else if t == "UmForward" then handleUmforward cfg cm backend c
   else
     let r : Resp :=
       if t == "Ping" || t == "Quit" then .simple (bs "OK")
